@@ -60,6 +60,12 @@ impl Value {
 pub struct CallCache(HashMap<Key, Value>);
 
 impl CallCache {
+    /// Forget everything: addresses and parameter types are only valid for the debugee
+    /// (and the load of it) they were resolved in.
+    pub fn clear(&mut self) {
+        self.0.clear();
+    }
+
     pub fn get_or_insert(
         &mut self,
         dbg: &Debugger,
